@@ -142,6 +142,8 @@ var c03Menu = []string{
 	"##!> include inc", "##!> include inc -- a b b c", "##!> include-except inc ex", "##!> include-except inc ex -- a b b c",
 	"##!> include inc -- a b xa q b c",
 	"##!> include-except words defa usew defb", "##!> include-except words usew defb defa ex", "##!> include-except words defb defa usew usew",
+	// a name that exists in the include and in the exclude directory (with different content)
+	"##!> include incd", "##!> include-except incd ex",
 	"##!> include-except dup ex", "##!> include-except sfx ex", "##!> include-except sfx ex -- e z", "##!> include sfx",
 	// lines that several directive patterns could claim (also computed by L1)
 	"##! ##!> include inc", "a ##!> include inc", "##!+ i ##!> include inc", "##!^ p ##!> include inc", "##! ##!> define d1 x", "##!> include-except inc ex ##!> include inc",
@@ -572,6 +574,63 @@ func C03(r *core.Run) {
 	})
 	deaths = append(deaths, d8...)
 	envOuts = append(envOuts, cwdOuts...)
+	// what earlier runs did is not an input: a tree that was used before (with another configuration, other
+	// assembly files, another stored operand) and a fresh copy of its final files give the same results
+	histOuts, d9 := core.Parallel(r, "history", fpIn{Dir: dir}, 1, func(in fpIn, shard, n int, emit func(envOut)) {
+		var out envOut
+		cfg := func(ev string) string {
+			return "patterns:\n  anti_evasion:\n    unix: '" + ev + "'\n    windows: '[w]*'\n  anti_evasion_suffix:\n    unix: '\\s'\n    windows: ';'\n"
+		}
+		prog := "##!> cmdline unix\ncurl@\nls -l\n##!<\n##!> include inc\n"
+		type step struct{ file, content string }
+		final := map[string]string{"regex-assembly/toolchain.yaml": cfg("[q]*"), "regex-assembly/123456.ra": prog, "regex-assembly/include/inc.ra": "xa\nyb\n", "regex-assembly/strict.yaml": cfg("[s]+")}
+		histories := [][]step{
+			{{"regex-assembly/toolchain.yaml", cfg("[old]*")}},
+			{{"regex-assembly/123456.ra", "other\n"}},
+			{{"regex-assembly/include/inc.ra", "zz\n"}},
+			{{"regex-assembly/strict.yaml", cfg("[older]+")}},
+			{{"regex-assembly/toolchain.yaml", ""}, {"regex-assembly/toolchain.yaml", cfg("[old]*")}},
+		}
+		cmds := [][]string{{"regex", "generate", "123456"}, {"regex", "generate", "-"}, {"-f", "strict.yaml", "regex", "generate", "123456"}, {"regex", "compare", "123456"}, {"regex", "update", "123456"}, {"regex", "update", "--all"}}
+		for hi, hist := range histories {
+			used := filepath.Join(in.Dir, "hist-used")
+			fresh := filepath.Join(in.Dir, fmt.Sprint("hist-fresh", hi))
+			os.RemoveAll(used)
+			// the used tree: every earlier state is visited with every command, then the final files are written
+			t := core.Tree{"regex-assembly/exclude/": "", "rules/REQUEST-123-TEST.conf": rulesFile(ruleSpec{ID: "123456", Regex: "OLD"})}
+			for k, v := range final {
+				t[k] = v
+			}
+			t.Materialise(used)
+			for _, st := range hist {
+				os.WriteFile(filepath.Join(used, st.file), []byte(st.content), 0o644)
+				for _, cmd := range cmds {
+					core.RunCLI(r.Crs, used, prog, nil, append([]string{"-d", used}, cmd...)...)
+					out.Runs++
+				}
+			}
+			t.Materialise(used)
+			os.RemoveAll(fresh)
+			t.Materialise(fresh)
+			for _, cmd := range cmds {
+				var obs [2]string
+				for i, root := range []string{used, fresh} {
+					os.WriteFile(filepath.Join(root, "rules/REQUEST-123-TEST.conf"), []byte(rulesFile(ruleSpec{ID: "123456", Regex: "OLD"})), 0o644)
+					res := core.RunCLI(r.Crs, root, prog, nil, append([]string{"-d", root}, cmd...)...)
+					out.Runs++
+					conf, _ := os.ReadFile(filepath.Join(root, "rules/REQUEST-123-TEST.conf"))
+					obs[i] = fmt.Sprint(res.Exit, "\x00", res.Stdout, "\x00", string(conf))
+				}
+				if obs[0] != obs[1] {
+					out.Bad = append(out.Bad, fmt.Sprintf("`%s` gives a different result on a tree that was used before (history %d: %s changed since the first runs) than on a fresh copy of the same files: %q vs %q", strings.Join(cmd, " "), hi, hist[0].file, tailStr(obs[0], 140), tailStr(obs[1], 140)))
+				}
+			}
+			os.RemoveAll(fresh)
+		}
+		emit(out)
+	})
+	deaths = append(deaths, d9...)
+	envOuts = append(envOuts, histOuts...)
 	// the way standard input arrives (one write, several writes with pauses, more than a pipe buffer holds) is
 	// part of "any process": `generate -` must print what `generate FILE` prints for the same bytes
 	stdinOuts, d5 := core.Parallel(r, "stdin", fpIn{Dir: dir, Texts: menu}, r.Workers, func(in fpIn, shard, n int, emit func(envOut)) {
